@@ -47,7 +47,7 @@ theorem trace_const (ρ : Env) (c : Const) (h : noNan (.const c) = true) :
         · exact key _ h'
 
 theorem trace_name (cfg : Cfg) (vs : List Text) (n : Text) (x : PyExpr)
-    (h : transpileName cfg vs n = .ok x) (ρ : Env) : PyExpr.trace ρ x = [.load n (loadOut ρ n)] := by
+    (h : transpileName cfg vs n = .ok x) (ρ : Env) : PyExpr.trace ρ x = [evLoad ρ n] := by
   unfold transpileName at h
   split at h
   · split at h
